@@ -122,6 +122,11 @@ def work(unit, rec):
       dim = lambda x, unit: np.asarray(scale.dimensionalize(harness.to_real_layout(np.asarray(x), shape, impl), unit).m)
       if fn == 'tendency':
         t = jax.vmap(harness.total_tendency_fn(eq))(state)
+        # evaluated again on the same Grid through a second equation object: nothing may have been rescaled in place
+        eq_b = sw.ShallowWaterEquations(coords, specs, eq.orography, eq.reference_potential)
+        t_b = jax.vmap(harness.total_tendency_fn(eq_b))(state)
+        for fld in ('vorticity', 'divergence', 'potential'):
+          rec.exact(np.asarray(getattr(t_b, fld)), np.asarray(getattr(t, fld)), site='second_evaluation_on_the_same_grid_is_identical', key=('repeat', ctag, sname), sig={'field': fld})
         outs[sname] = dict(vorticity=dim(t.vorticity, u.s ** -2), divergence=dim(t.divergence, u.s ** -2), potential=dim(t.potential, u.m ** 2 / u.s ** 3))
       else:
         dt = float(nd(dt_si * u.s))
